@@ -90,6 +90,10 @@ type Check struct {
 	// -race (VERIF_RACE_BIN): a data race report kills the worker (halt_on_error)
 	// and is classified by DeathSig.
 	RaceSeeds func(tier string) int
+	// RaceScope, when set, makes the race leg a scoped one (racescope.go): the worker
+	// keeps running after a report, and only reports whose two accesses both lie in the
+	// dynamic extent of one of these functions become violations.
+	RaceScope []string
 	Workers   int // 0: default
 	// Legs: further batches of the same check executed after the main one, each with
 	// its own generator (e.g. the cluster leg of a check whose main leg runs in World I).
@@ -193,7 +197,12 @@ func safeExec(c *Check, cs json.RawMessage, wantLog bool) (out Outcome) {
 			out.Harness = fmt.Sprintf("harness panic: %v\n%s", r, debug.Stack())
 		}
 	}()
-	return c.Exec(cs, wantLog)
+	mark := newRaceMark(c)
+	out = c.Exec(cs, wantLog)
+	if mark != nil && out.Harness == "" {
+		out.Violations = append(out.Violations, mark.collect()...)
+	}
+	return out
 }
 
 func sigSet(vs []Violation) map[string]bool {
@@ -221,6 +230,13 @@ func shrink(c *Check, cs json.RawMessage, target Violation, maxExecs int, deadli
 				continue
 			}
 			execs++
+			if raceScoped(c) && strings.HasPrefix(target.Sig, "data-race/") {
+				if raceExecFresh(c, cand, target) {
+					cur, progress = cand, true
+					break
+				}
+				continue
+			}
 			o := safeExec(c, cand, false)
 			if o.Harness != "" {
 				continue
@@ -346,7 +362,11 @@ func runSeed(c *Check, tier string, root, seed uint64) workerResult {
 			// executed after it in this process would be compared with what they did
 			budget = 0
 		}
-		min, mv, execs := shrink(c, start, v, budget, time.Now().Add(20*time.Second))
+		dl := 20 * time.Second
+		if raceScoped(c) && strings.HasPrefix(v.Sig, "data-race/") && budget > 0 {
+			budget, dl = 40, 2*time.Minute // every candidate costs a fresh process (racescope.go)
+		}
+		min, mv, execs := shrink(c, start, v, budget, time.Now().Add(dl))
 		res.Shrinks += execs
 		lo := o
 		if budget > 0 {
@@ -704,7 +724,13 @@ func runParent(c *Check, tier string, root uint64) int {
 			}
 		}
 		if rs > 0 {
-			os.Setenv("GORACE", "halt_on_error=1")
+			if len(c.RaceScope) > 0 {
+				rl := filepath.Join(os.Getenv("VERIF_SCRATCH_RUN"), "racelog")
+				os.Setenv("VERIF_RACE_LOG", rl)
+				os.Setenv("GORACE", "halt_on_error=0 log_path="+rl)
+			} else {
+				os.Setenv("GORACE", "halt_on_error=1")
+			}
 			runPool(rb, "race", rs, nw, 0, c.RecycleEvery)
 		}
 	}
